@@ -932,3 +932,109 @@ def mut_rational_lattice(repo: Repo) -> List[Mutant]:
 
 
 RULES["RATLATTICE"] = Rule("F-rational-lattice", rule_rational_lattice, 3, "rational exponent lattice: the no-relation shortcut needs pairwise coprimality; the kernel is computed by integral row operations scanning from the pivot counter", mut_rational_lattice)
+
+
+# ------------------------------------------------------------------ C06: exponent bases and their symbols stay aligned; closed forms are stored under the goal's own name
+def rule_invariant_inputs(repo: Repo) -> List[Ob]:
+    obs = []
+    f = repo.function("invariants/invariant_ideal.py", "InvariantIdeal.compute_basis")
+    defs = Defs(f.node, f.params()[0])
+    lat = [c for c in walk_no_nested(f.node) if isinstance(c, ast.Call) and call_name(c) == "ExponentLattice" and c.args]
+    ide = [c for c in walk_no_nested(f.node) if isinstance(c, ast.Call) and call_name(c) == "LatticeIdeal" and len(c.args) == 2]
+    if not lat or not ide:
+        raise AnalysisError("InvariantIdeal.compute_basis: ExponentLattice / LatticeIdeal construction not found")
+
+    def shape(e):
+        # list(D.keys()) / list(D.values()) possibly through a single-definition local
+        if isinstance(e, ast.Name) and len([v for v in defs.defs.get(e.id, []) if isinstance(v, ast.expr)]) == 1:
+            e = [v for v in defs.defs[e.id] if isinstance(v, ast.expr)][0]
+        wrappers = []
+        while isinstance(e, ast.Call) and isinstance(e.func, ast.Name) and e.func.id in ("list", "tuple", "sorted", "reversed", "set", "frozenset") and e.args:
+            wrappers.append(e.func.id)
+            e = e.args[0]
+        if isinstance(e, ast.Call) and isinstance(e.func, ast.Attribute) and e.func.attr in ("keys", "values") and not e.args:
+            return src(e.func.value), e.func.attr, [w for w in wrappers if w not in ("list", "tuple")]
+        return None
+    sb, ss = shape(lat[0].args[0]), shape(ide[0].args[1])
+    ok = sb is not None and ss is not None and sb[0] == ss[0] and sb[1] == "keys" and ss[1] == "values" and sb[2] == ss[2] == []
+    obs.append(Ob("F-invariant-inputs", "invariants/invariant_ideal.py::InvariantIdeal.compute_basis::aligned", f.relpath, lat[0].lineno, f.qualname, ok,
+                  "exponent bases and their symbols are the keys and values of one dict in the same (insertion) order: component i of a lattice vector belongs to symbol i" if ok else
+                  f"bases are `{src(lat[0].args[0])}` ({sb}) but symbols are `{src(ide[0].args[1])}` ({ss}): reordering only one of them pairs lattice exponents with the wrong sequences"))
+    # the lattice basis of exactly these bases feeds the ideal
+    a0 = ide[0].args[0]
+    feeds = isinstance(a0, ast.Call) and call_name(a0) == "compute_basis" and defs.origin_field(a0.func.value) is None and \
+        (a0.func.value is lat[0] or (isinstance(a0.func.value, ast.Name) and any(v is lat[0] for v in defs.defs.get(a0.func.value.id, []))))
+    obs.append(Ob("F-invariant-inputs", "invariants/invariant_ideal.py::InvariantIdeal.compute_basis::lattice-feeds-ideal", f.relpath, ide[0].lineno, f.qualname, feeds,
+                  "the binomial ideal is built from the lattice basis of the same bases" if feeds else "LatticeIdeal is not built from ExponentLattice(bases).compute_basis()"))
+    # goal kinds and the identifiers their closed forms are stored under
+    gp = repo.function("inputparser/goal_parser.py", "GoalParser.parse")
+    letter_kind: Dict[str, str] = {}
+    for n in walk_no_nested(gp.node):
+        if isinstance(n, ast.If) and isinstance(n.test, ast.Compare) and src(n.test.left) == "goal[0]" and const_str(n.test.comparators[0]):
+            letter = const_str(n.test.comparators[0])
+            for r in [x for x in n.body if isinstance(x, ast.Return)]:
+                if isinstance(r.value, ast.Call):
+                    kinds = [a.id for a in r.value.args if isinstance(a, ast.Name) and a.id.isupper()]
+                    if kinds:
+                        letter_kind[letter] = kinds[0]
+                    elif "_parse_moment" in src(r.value.func):
+                        letter_kind[letter] = "MOMENT"
+    if len(letter_kind) < 3:
+        raise AnalysisError("GoalParser.parse: letter -> goal kind table not readable")
+    h = repo.function("cli/actions/goals_action.py", "GoalsAction.handle_all_goals")
+    n_store = 0
+    for n in walk_no_nested(h.node):
+        if isinstance(n, ast.If) and isinstance(n.test, ast.Compare) and src(n.test.left) == "goal_type" and isinstance(n.test.comparators[0], ast.Name):
+            kind = n.test.comparators[0].id
+            for st in n.body:
+                for a in ast.walk(st):
+                    if isinstance(a, ast.Assign) and isinstance(a.targets[0], ast.Subscript) and "closed_forms" in src(a.targets[0].value):
+                        n_store += 1
+                        keyexpr = a.targets[0].slice
+                        if isinstance(keyexpr, ast.Name):
+                            for v in Defs(h.node, h.params()[0]).defs.get(keyexpr.id, []):
+                                if isinstance(v, ast.IfExp):
+                                    keyexpr = v.body
+                                elif isinstance(v, ast.expr):
+                                    keyexpr = v
+                        lead = None
+                        if isinstance(keyexpr, ast.JoinedStr) and keyexpr.values and isinstance(keyexpr.values[0], ast.Constant):
+                            lead = str(keyexpr.values[0].value)[:1]
+                        want = [l for l, k in letter_kind.items() if k == kind]
+                        ok = lead is not None and lead in want
+                        obs.append(Ob("F-invariant-inputs", f"cli/actions/goals_action.py::GoalsAction.handle_all_goals::identifier::{kind}", h.relpath, a.lineno, h.qualname, ok,
+                                      f"a {kind} goal's closed form is stored under an identifier starting with {want} (the goal syntax)" if ok else
+                                      f"a {kind} goal's closed form is stored under `{src(a.targets[0].slice)[:40]}` (leading {lead!r}); the goal syntax for {kind} is {want}: invariants would be printed over the wrong quantity"))
+    if n_store < 3:
+        raise AnalysisError("handle_all_goals: closed-form stores not found")
+    return obs
+
+
+def mut_invariant_inputs(repo: Repo) -> List[Mutant]:
+    out = []
+
+    def sort_bases(tree):
+        fn = find_def(tree, "InvariantIdeal.compute_basis")
+        for n in ast.walk(fn):
+            if isinstance(n, ast.Assign) and isinstance(n.targets[0], ast.Name) and n.targets[0].id == "exponent_bases":
+                n.value = ast.parse("sorted(self.base_to_symbol.keys(), key=str)").body[0].value
+                return True
+        return False
+    ov = mutate_module(repo, "invariants/invariant_ideal.py", sort_bases)
+    if ov:
+        out.append(Mutant("bases-sorted-symbols-not", ov, "fire", "compute_basis::aligned", control=True))
+
+    def wrong_key(tree):
+        fn = find_def(tree, "GoalsAction.handle_all_goals")
+        for n in ast.walk(fn):
+            if isinstance(n, ast.JoinedStr) and n.values and isinstance(n.values[0], ast.Constant) and n.values[0].value == "c":
+                n.values[0].value = "k"
+                return True
+        return False
+    ov = mutate_module(repo, "cli/actions/goals_action.py", wrong_key)
+    if ov:
+        out.append(Mutant("central-stored-as-cumulant", ov, "fire", "identifier::CENTRAL"))
+    return out
+
+
+RULES["INVINPUTS"] = Rule("F-invariant-inputs", rule_invariant_inputs, 5, "exponent bases and symbols are aligned (keys/values of one dict); closed forms are stored under the identifier of their own goal kind", mut_invariant_inputs)
